@@ -73,7 +73,7 @@ Definition is_cpp (ch : choice) : bool := match ch with CPp _ _ _ => true | _ =>
 (* a step of any actor but a partition worker keeps the table *)
 Lemma core_step_other c s ch tab : c_idem c = true -> is_cpp ch = false ->
   places_ok (PE (g_epoch s)) s -> Forall (core tab) (flat s) ->
-  (forall x, ch = CSubmit x -> g_close_req s = false -> ~ In (m_id x) (map fst tab)) ->
+  (forall x, ch = CSubmit x -> g_close_req s = false -> g_panic s = None -> ~ In (m_id x) (map fst tab)) ->
   Forall (core tab) (flat (step c s ch)).
 Proof.
   intros Hi Hc Hp Hf Hsub.
@@ -81,7 +81,7 @@ Proof.
   { eapply places_and; [exact Hp | apply flat_places, Hf | | |]; cbn [PT PQ PL PB]; intros; split; assumption. }
   assert (H1 : places_ok (PT (g_epoch s) tab) (step c s ch)).
   { apply (step_places _ False); [exact H0 | apply transfers_PT, Hi | intros t p ls ->; discriminate | |].
-    - intros x -> Hcr. split; [apply PE_submit|]. intros _. split; [intros Hh; discriminate | intros _; apply (Hsub x eq_refl Hcr)].
+    - intros x -> Hcr Hnp. split; [apply PE_submit|]. intros _. split; [intros Hh; discriminate | intros _; apply (Hsub x eq_refl Hcr Hnp)].
     - split; [apply PE_shutdown | intros Hd; discriminate]. }
   eapply places_flat; [exact H1 | | |]; cbn [PT PQ PL PB]; intros; tauto.
 Qed.
@@ -236,7 +236,8 @@ Lemma run_pp_tab c sA t p x m0 ls tab : c_idem c = true ->
   let s' := run_pp c sA (t, p) x m0 ls in
   g_panic s' = None -> g_epoch s' = g_epoch sA ->
   (forall a b, In a (flat s') -> In b (flat s') -> is_data a = true -> is_data b = true -> m_id a = m_id b -> a = b) ->
-  exists tab', incl tab tab' /\ tab_ok (g_epoch s') (SQof s') tab' /\ Forall (core tab') (flat s').
+  exists tab', incl tab tab' /\ tab_ok (g_epoch s') (SQof s') tab' /\ Forall (core tab') (flat s') /\
+    (forall i st, In (i, st) tab' -> In (i, st) tab \/ exists m', In m' (flat s') /\ is_data m' = true /\ m_id m' = i).
 Proof.
   intros Hi Hp Hf Hu0 Hc0 HuI HcI Ht s' Hnp He Huq.
   destruct (run_pp_core c sA t p x m0 ls Hp Hu0 HuI) as [effs [n [Sn [Tx [Hcl [Hfw Hsh]]]]]]. fold s' in Tx, Hcl, Hfw, Hsh.
@@ -252,7 +253,10 @@ Proof.
   - apply (so_ep _ _ _ _ _ _ Sn).
   - rewrite Hsq. unfold ks. rewrite tpk_eqb_refl. reflexivity.
   - intros k N. rewrite Hsq. unfold ks. apply tpk_eqb_neq in N. rewrite N. lia.
-  - exists (tab ++ map pairof (newL effs)). split; [apply incl_appl, incl_refl|]. rewrite He. split; assumption.
+  - exists (tab ++ map pairof (newL effs)). split; [apply incl_appl, incl_refl|]. rewrite He. split; [exact T'|]. split; [exact C'|].
+    intros i st Hin. apply in_app_or in Hin as [Hin|Hin]; [left; exact Hin|]. right.
+    apply in_map_iff in Hin as [m' [Ep Hm']]. exists m'. split; [apply Hfw; assumption|].
+    destruct (Hsh m' Hm') as [m [sq [_ [-> [_ Hd]]]]]. injection Ep as <- _. split; [exact Hd | reflexivity].
 Qed.
 
 Lemma pop_flat d s m s1 : pop d s = Some (m, s1) -> In m (flat s) /\ (forall a, In a (flat s1) -> In a (flat s)).
@@ -273,12 +277,14 @@ Lemma core_step_cpp c s t p ls tab : c_idem c = true ->
   let s' := step c s (CPp t p ls) in
   g_epoch s' = g_epoch s ->
   (forall a b, In a (flat s') -> In b (flat s') -> is_data a = true -> is_data b = true -> m_id a = m_id b -> a = b) ->
-  exists tab', incl tab tab' /\ tab_ok (g_epoch s') (SQof s') tab' /\ Forall (core tab') (flat s').
+  exists tab', incl tab tab' /\ tab_ok (g_epoch s') (SQof s') tab' /\ Forall (core tab') (flat s') /\
+    (forall i st, In (i, st) tab' -> In (i, st) tab \/ exists m', In m' (flat s') /\ is_data m' = true /\ m_id m' = i).
 Proof.
   intros Hi Hp Hf Ht s' He Huq.
   assert (Keep : forall s0, flat s0 = flat s -> g_epoch s0 = g_epoch s -> g_seqs s0 = g_seqs s ->
-                 exists tab', incl tab tab' /\ tab_ok (g_epoch s0) (SQof s0) tab' /\ Forall (core tab') (flat s0)).
-  { intros s0 E1 E2 E3. exists tab. unfold SQof. rewrite E1, E2, E3. split; [apply incl_refl | split; assumption]. }
+                 exists tab', incl tab tab' /\ tab_ok (g_epoch s0) (SQof s0) tab' /\ Forall (core tab') (flat s0) /\
+                   (forall i st, In (i, st) tab' -> In (i, st) tab \/ exists m', In m' (flat s0) /\ is_data m' = true /\ m_id m' = i)).
+  { intros s0 E1 E2 E3. exists tab. unfold SQof. rewrite E1, E2, E3. split; [apply incl_refl | split; [assumption | split; [assumption | intros i st H; left; exact H]]]. }
   subst s'. unfold step in *. destruct (g_panic s) eqn:Eps; [apply Keep; reflexivity|].
   destruct (g_panic (raw_step c s (CPp t p ls))) eqn:Epr; [apply Keep; reflexivity|].
   cbn [raw_step] in *. destruct (pop (DPart t p) s) as [[m0 s1]|] eqn:Epop; [|apply Keep; reflexivity].
@@ -292,8 +298,8 @@ Proof.
   - pose proof (pp_get_in _ _ _ Ex) as Hinx.
     assert (Hsubx : forall a, In a (pp_msgs (pr_st x)) -> In a (flat s1)).
     { intros a Ha. apply in_flat. right; left. apply in_flat_map. exists ((t, p), x). split; assumption. }
-    destruct (run_pp_tab c s1 t p x m0 ls tab Hi Hp1 Hf1 Hm0 Hc0 (po_pp _ _ Hp1 _ _ Hinx) (forall_sub _ _ _ Hsubx Hf1) Ht1 Epr) as [tab' [I1 [I2 I3]]]; [rewrite E1; exact He | exact Huq|].
-    exists tab'. split; [exact I1 | split; assumption].
+    destruct (run_pp_tab c s1 t p x m0 ls tab Hi Hp1 Hf1 Hm0 Hc0 (po_pp _ _ Hp1 _ _ Hinx) (forall_sub _ _ _ Hsubx Hf1) Ht1 Epr) as [tab' [I1 [I2 [I3 I4]]]]; [rewrite E1; exact He | exact Huq|].
+    exists tab'. split; [exact I1 | split; [exact I2 | split; assumption]].
   - destruct (next_lres ls) as [l0 ls'].
     assert (T1 : transfers_pp (PE (g_epoch s1)) c (g_epoch s1) (fun k => seq_get k (g_seqs s1))) by (apply (t_pp _ _ _ _ _ (transfers_PE (g_epoch s1) c _ Hi)); exact I).
     destruct (pp_init_okP (PE (g_epoch s1)) c _ _ T1 t p l0) as [Q0 Q1].
@@ -326,6 +332,6 @@ Proof.
         eapply forall_sub; [|exact Hf3]. intros a Ha. apply in_flat. right; left. apply in_flat_map. exists ((t, p), x). split; assumption.
       - cbn [pr_st]. rewrite Q1. split; constructor. }
     destruct Hx' as [Hx1 Hx2].
-    destruct (run_pp_tab c s3 t p x' m0 ls' tab Hi H3 Hf3 Hm0 Hc0 Hx1 Hx2 Ht3 Epr) as [tab' [I1 [I2 I3]]]; [rewrite E3, E1; exact He | exact Huq|].
-    exists tab'. split; [exact I1 | split; assumption].
+    destruct (run_pp_tab c s3 t p x' m0 ls' tab Hi H3 Hf3 Hm0 Hc0 Hx1 Hx2 Ht3 Epr) as [tab' [I1 [I2 [I3 I4]]]]; [rewrite E3, E1; exact He | exact Huq|].
+    exists tab'. split; [exact I1 | split; [exact I2 | split; assumption]].
 Qed.
